@@ -213,8 +213,11 @@ def _rx_of(eng, key_val):
     from pyvc.objects import RxSym
     key = key_val.d.as_string() if not isinstance(key_val.shape, ConcS) else key_val.d
     if isinstance(key, str):
+        attr = "_regex_prog"
+        if "#" in key:
+            key, attr = key.split("#")
         cls = eng.live_class(key)
-        pat = cls._regex_prog
+        pat = getattr(cls, attr)
     else:
         pat = key
     return RxSym(pat.pattern, pat.groups)
@@ -339,6 +342,20 @@ def sp_forall_key_absent(eng, st, m):
     return V.vbool(z3.ForAll([k], z3.Not(z3.Select(m.d[0], k))))
 
 
+def sp_keys_of(eng, st, d):
+    """insertion-ordered key sequence of an ordered dict value"""
+    return eng.as_sym(d).d[1]
+
+
+def sp_forall_keys(eng, st, d, fn):
+    d = eng.as_sym(d)
+    m = d.d[0] if hasattr(d.shape, "map") else d
+    ks = m.shape.key
+    k = z3.Const(V.fresh_name("fk"), ks.sorts()[0])
+    body = _truth(eng, st, eng.call_closure(fn.d, [V.from_leaves(ks, [k])], {}, st))
+    return V.vbool(z3.ForAll([k], z3.Implies(z3.Select(m.d[0], k), body)))
+
+
 def sp_fn_result(eng, st, name, *args):
     """The (deterministic) result of the function under contract `name` on the given arguments."""
     c = eng.reg.by_name(name.d.as_string())
@@ -375,6 +392,8 @@ def register(reg):
     f["empty_ints"] = sp_empty_ints
     f["slice"] = sp_slice
     f["forall_key_absent"] = sp_forall_key_absent
+    f["keys_of"] = sp_keys_of
+    f["forall_keys"] = sp_forall_keys
     f["fn_result"] = sp_fn_result
     f["callee_ghost"] = sp_callee_ghost
     f["opaque"] = sp_opaque
